@@ -40,6 +40,12 @@ extern void    user_bcopy      (char *, char *, int);
 #define StackFull(x)         ( x + Glu->stack.used >= Glu->stack.size )
 #define NotDoubleAlign(addr) ( (intptr_t)addr & 7 )
 #define DoubleAlign(addr)    ( ((intptr_t)addr + 7) & ~7L )	
+/* Bytes skipped at the start of a user-supplied work[], so that the arrays
+   placed in it, which may hold 64-bit integers, start at an 8-byte boundary. */
+#define WorkSkip(work)       ( (int_t) ((char*)DoubleAlign(work) - (char*)(work)) )
+/* In a user-supplied work[] the index arrays follow the float arrays: even
+   lengths of the latter keep 64-bit indices at 8-byte boundaries. */
+#define EvenLen(len)         ( Glu->MemModel == USER ? (len) + ((len) & 1) : (len) )
 #define TempSpace(m, w)      ( (2*w + 4 + NO_MARKER) * m * sizeof(int) + \
 			      (w + 1) * m * sizeof(float) )
 #define Reduce(alpha)        ((alpha + 1) / 2)  /* i.e. (alpha-1)/2 + 1 */
@@ -60,9 +66,9 @@ void sSetupSpace(void *work, int_t lwork, GlobalLU_t *Glu)
 	Glu->MemModel = USER;   /* user provided space */
 	Glu->stack.used = 0;
 	Glu->stack.top1 = 0;
-	Glu->stack.top2 = (lwork/4)*4; /* must be word addressable */
+	Glu->stack.top2 = ((lwork - WorkSkip(work))/4)*4; /* must be word addressable */
 	Glu->stack.size = Glu->stack.top2;
-	Glu->stack.array = (void *) work;
+	Glu->stack.array = (char *) work + WorkSkip(work);
     }
 }
 
@@ -322,7 +328,7 @@ sLUMemInit(fact_t fact, void *work, int_t lwork, int m, int n, int_t annz,
 	    Glu->MemModel = SYSTEM;
 	} else {
 	    Glu->MemModel = USER;
-	    Glu->stack.top2 = (lwork/4)*4; /* must be word-addressable */
+	    Glu->stack.top2 = ((lwork - WorkSkip(work))/4)*4; /* must be word-addressable */
 	    Glu->stack.size = Glu->stack.top2;
 	}
 	
@@ -568,6 +574,7 @@ void
     
     if ( type == LSUB || type == USUB ) lword = sizeof(int_t);
     else lword = sizeof(float);
+    if ( lword < sizeof(int_t) ) new_len = EvenLen(new_len);
 
     if ( Glu->MemModel == SYSTEM ) {
 	new_mem = (void *) SUPERLU_MALLOC((size_t)new_len * lword);
@@ -622,6 +629,7 @@ void
 		    if ( ++tries > 10 ) return (NULL);
 		    alpha = Reduce(alpha);
 		    new_len = alpha * *prev_len;
+		    if ( lword < sizeof(int_t) ) new_len = EvenLen(new_len);
 		    extra = (new_len - *prev_len) * lword;	    
 		}
 		/* The space left does not allow any growth: report the failure
